@@ -67,6 +67,11 @@ func (p *entityPool) Recycle(e Entity) {
 
 // Reset recycles all entities. Does NOT free the reserved memory.
 func (p *entityPool) Reset() {
+	// Invalidate the generations of all entities, as Alive reads them
+	// without a bounds check, also beyond the length of the slice.
+	for i := int(p.reserved); i < len(p.entities); i++ {
+		p.entities[i].gen = math.MaxUint32
+	}
 	p.entities = p.entities[:p.reserved]
 	p.next = 0
 	p.available = 0
